@@ -167,7 +167,7 @@ def handle (args : List Sexp) : String :=
       if kind == "dtd" then
         s!"(({o (feelAddDtd x y)} {o (feelNegDtd x)} {o (feelSubDtd x y)} {b (decide (x = y))} {b (decide (x < y))}) {sp})"
       else
-        s!"(({o (feelAddYmd x y)} {o (feelNegYmd x)} none {b (decide (x = y))} {b (decide (x < y))}) {sp})"
+        s!"(({o (feelAddYmd x y)} {o (feelNegYmd x)} {o (feelSubYmd x y)} {b (decide (x = y))} {b (decide (x < y))}) {sp})"
     | _, _ => "(error bad-args)"
   | _ => "(error bad-request)"
 
